@@ -17,6 +17,11 @@
   Known finding F07b (op_2rot copies instead of moving; pinned by test_op_2rot): the model
   reproduces it, `F07b_witness` exhibits it, the opcode theorems are `_partial` (every opcode but
   OP_2ROT; OP_2ROT itself on stacks of fewer than 6 items).
+
+  N07e: "properly nested" is read as at most one ELSE per IF (`Bal`); with a repeated ELSE consensus
+  and the implementation differ (`N07e_witness`), such programs are outside the theorems.
+  N07f: a 5-byte CHECKSEQUENCEVERIFY operand ≥ 2^32 (outside the property's operand range) raises
+  ValueError in the implementation (`N07f_witness`); the theorems assume that did not happen.
 -/
 import Buidl.Proofs.Interp
 import Buidl.Proofs.InterpIf
@@ -193,6 +198,45 @@ theorem evaluate_straightline_accept (env : Env) (hlt : env.locktime ≤ 4294967
   | reject => rw [he] at h; simp only [Out.toSpec, Option.some.injEq] at h; simp [← h]
   | err e => rw [he] at h; simp only [Out.toSpec, Option.some.injEq] at h; simp [← h]
   | outOfFuel => rw [he] at h; simp [Out.toSpec] at h
+
+/-! ## properly nested IF / NOTIF / ELSE / ENDIF -/
+
+/- evaluate_nested (full strength) additionally allows OP_2ROT — false today (F07b). -/
+
+/-- For EVERY properly nested program (`Bal`: base commands — plain pushes, the 73 opcodes of
+    `opPairs`, TOALTSTACK, FROMALTSTACK — and IF/NOTIF … [ELSE …] ENDIF blocks nested to any depth with
+    at most one ELSE per IF), of any length, the implementation's splicing of the command list
+    (`op_if` / `op_notif`) accepts exactly when consensus' exec-stack evaluation accepts; same
+    provisos as for straight-line programs. -/
+theorem evaluate_nested_partial (env : Env) (hlt : env.locktime ≤ 4294967295)
+    (prog : List Cmd) (fuel : Nat) (hb : Bal prog) (hfuel : prog.length ≤ fuel)
+    (hve : evaluate Cfg.repaired env prog [] fuel ≠ .err .valueError)
+    (hov : Consensus.eval (ctxOf env) prog ≠ .oversize) :
+    (evaluate Cfg.repaired env prog [] fuel).toSpec = some (Consensus.eval (ctxOf env) prog) :=
+  run_nested env hlt prog.length prog (Nat.le_refl _) hb [] [] fuel hfuel hve hov
+
+/-- the scan of `op_if` / `op_notif` returns exactly the two branches and the continuation of a
+    properly nested conditional -/
+theorem op_if_splits (a b rest : List Cmd) (ha : Bal a) (hb : Bal b) :
+    scanIf (a ++ ELSE :: (b ++ ENDIF :: rest)) 1 false [] [] = some (a, b, rest) ∧
+    scanIf (a ++ ENDIF :: rest) 1 false [] [] = some (a, [], rest) :=
+  ⟨scanIf_ifElse ha hb rest, scanIf_ifThen ha rest⟩
+
+/-- `Bal` is inhabited by programs with nested conditionals -/
+example : Bal [.op 81, .op 99, .op 82, .op 100, .op 83, .op 104, .op 103, .op 84, .op 104, .op 81] :=
+  Bal.cmd _ _ (by decide)
+    (Bal.ifElse false [.op 82, .op 100, .op 83, .op 104] [.op 84] [.op 81]
+      (Bal.cmd _ _ (by decide) (Bal.ifThen true [.op 83] [] (Bal.cmd _ _ (by decide) Bal.nil) Bal.nil))
+      (Bal.cmd _ _ (by decide) Bal.nil) (Bal.cmd _ _ (by decide) Bal.nil))
+
+/-- N07e (outside "properly nested"): with a second ELSE consensus toggles execution again, the
+    implementation keeps filling the false branch: `1 IF 0 ELSE 0 ELSE 1 ENDIF` is accepted by
+    consensus and rejected by the implementation -/
+theorem N07e_witness :
+    evaluate Cfg.repaired (testEnv 0 0 1)
+      [.op 81, .op 99, .op 0, .op 103, .op 0, .op 103, .op 81, .op 104] [] 100 = .reject ∧
+    Consensus.eval (ctxOf (testEnv 0 0 1))
+      [.op 81, .op 99, .op 0, .op 103, .op 0, .op 103, .op 81, .op 104] = .accept := by decide
 
 /-- the hypotheses are satisfiable by a program that exercises pushes, arithmetic, a hash and a
     comparison; it is accepted -/
